@@ -88,6 +88,11 @@ func (m *ippMsg) decode(raw []byte) error {
 
 	// Groups, dtag is a delimiter(group) tag
 	for dtag := dec.Byte(); dtag != endAttribTag; dtag = dec.Byte() {
+		// a body that ends without an end-of-attributes tag: a failed read returns
+		// zero and consumes nothing, so this loop would never end
+		if err := dec.LastError(); err != nil {
+			return err
+		}
 
 		group := &attribGroup{tag: dtag}
 		if err := group.decode(dec); err != nil {
